@@ -281,7 +281,11 @@ def run(ctx):
                         why = br
                 if not ok and cls == "CaptureModulePayload":
                     # the length is the size of a string_view produced by the walker; the walker's views are checked under R2c
-                    ok = any(g.name.endswith("::initStringView") for g in fb.reachable_from([lenf]).values())
+                    # the reported length is the size() of a string_view; every such view handed out by the class's walker code is an R2c obligation
+                    rets = lenf.returns()
+                    ok = bool(rets) and all(isinstance(r.get("e"), dict) and any((callee_name(x) or "").startswith("std::basic_string_view") and
+                                                                                 (x.get("callee") or {}).get("nm") in ("size", "length")
+                                                                                 for x in walk(facts.expand(lenf, r["e"])) if x.get("k") == "call") for r in rets)
                     why = "length is the size of a view built by the walker (guards checked under C03-R2c)"
                 res.check(ok, "C03-R2b", key, lenf.loc, "length produced by a bounded reader / guarded walker", "%s()/%s(): %s" % (pg, lg, why))
         # ---- walkers: raw accesses in accessor-reachable member functions of the class (excluding builders and validators)
@@ -319,6 +323,9 @@ def run(ctx):
         if vals and vals[-1][1] is True and mk:
             built = (mk[0].get("callee") or {}).get("targs", ["?"])[0]
             seen_cases[case] = (vals[-1][0], built)
+    if not seen_cases:
+        raise Broken("Packet::create: no (payload type -> validator, constructed class) row could be read off its paths; the dispatch is not a "
+                     "switch / if-chain over the payload type (a table of function pointers?) — re-derive C03-R3")
     for cls in CLASSES:
         pt = typed[cls]
         row = seen_cases.get(pt)
